@@ -3,6 +3,7 @@ package cog
 import (
 	"context"
 	"fmt"
+	"sort"
 
 	"cuelang.org/go/cue"
 	"github.com/grafana/codejen"
@@ -96,8 +97,15 @@ func NameFunc(nameFunc simplecue.NameFunc) CUEOption {
 // CUEImports allows referencing additional libraries/modules.
 func CUEImports(importsMap map[string]string) CUEOption {
 	return func(input *codegen.CueInput) {
-		for importPkg, pkgPath := range importsMap {
-			input.CueImports = append(input.CueImports, fmt.Sprintf("%s:%s", pkgPath, importPkg))
+		// sorted, to not depend on map iteration order
+		importPkgs := make([]string, 0, len(importsMap))
+		for importPkg := range importsMap {
+			importPkgs = append(importPkgs, importPkg)
+		}
+		sort.Strings(importPkgs)
+
+		for _, importPkg := range importPkgs {
+			input.CueImports = append(input.CueImports, fmt.Sprintf("%s:%s", importsMap[importPkg], importPkg))
 		}
 	}
 }
